@@ -1253,15 +1253,12 @@ func specDryReport(fileColor, dirColor *color.Color, ext []string, roots []*Node
 //@   implements formattedRootFn yamlNode
 //@ closure gtree.newTOMLSpreaderSimple#1
 //@   implements formattedRootFn tomlNode
-// the three encoder factories wrap library encoders (json.NewEncoder(w).Encode, ...): assumed to obey encoderFactory
+// the three encoder factories must return the Encode method value of a library encoder created on the given writer
 //@ closure gtree.newJSONSpreaderSimple#2
-//@   assumed
 //@   implements encoderFactory
 //@ closure gtree.newYAMLSpreaderSimple#2
-//@   assumed
 //@   implements encoderFactory
 //@ closure gtree.newTOMLSpreaderSimple#2
-//@   assumed
 //@   implements encoderFactory
 
 // toFormattedNode copies one level: names and arity of the children, in order, each child built by a recursive
